@@ -1,6 +1,8 @@
-(* C17, repaired variant: compiled only when the implementation no longer shows the PHASE / MEASURE
-   defects.  Then every kind the writer accepts survives and the round trip holds for the writer's whole
-   accepted set. *)
+(* C17, repaired variant: compiled only when the implementation shows none of the PHASE / MEASURE / width
+   defects.  Then every kind the writer accepts survives, the width is restored, and the round trip holds
+   for EVERY circuit object whose gates the instruction lines can carry (one target, numeric parameter on
+   the rotation kinds, exactly one control on CNOT - anything else on CNOT is refused,
+   C17_projectq_refuses_multicontrol). *)
 From Coq Require Import String ZArith List Bool.
 From Tangelo Require Import Linq.GateModel Linq.CircuitModel Linq.Formats Linq.FormatsProofs Linq.LinqZ Linq.FormatsZ.
 From Gen Require Import GateTables FormatTables.
@@ -13,21 +15,29 @@ Definition src_ok (accepts : string -> bool) (c : fcirc Z) : Prop :=
   circ_ok Z gtables c /\ Forall (fun g : zgate => accepts (pname g) = true) (fgates c)
   /\ Forall (fun g : zgate => pvar g = false) (fgates c).
 Ltac src_ok_tac := unfold src_ok, circ_ok; repeat split; try (vm_compute; discriminate); repeat (constructor; try (vm_compute; reflexivity)).
-
-Theorem C17_projectq_tables_ok : pq_tables_ok gtables pq_tbl = true.
-Proof. vm_compute. reflexivity. Qed.
+Theorem C17_projectq_tables_ok : pq_tables_ok gtables pq_tbl = true /\ pq_restores_width pq_tbl = true.
+Proof. vm_compute. split; reflexivity. Qed.
 Print Assumptions C17_projectq_tables_ok.
 
 Theorem C17_projectq_roundtrip :
   forall (Ang : Type) (eqmod : bool -> Ang -> Ang -> bool), (forall l a, eqmod l a a = true) ->
   forall c : fcirc Ang,
-    circ_ok Ang gtables c -> fwidth c = gates_width Ang (fgates c) ->
+    circ_ok Ang gtables c ->
     Forall (pq_expressible Ang pq_tbl) (fgates c) ->
     Forall (fun g : pgate Ang => pvar g = false) (fgates c) ->
     exists ls c', pq_write Ang pq_tbl c = Ok ls /\ pq_read Ang gtables pq_tbl ls = Ok c'
                   /\ circ_eq Ang eqmod gtables c c' = true.
 Proof.
-  intros Ang eqmod H c. apply (projectq_roundtrip Ang eqmod H gtables pq_tbl c C17_projectq_tables_ok).
-  vm_compute. reflexivity.
+  intros Ang eqmod H c Hok.
+  apply (projectq_roundtrip Ang eqmod H gtables pq_tbl c (proj1 C17_projectq_tables_ok)); [vm_compute; reflexivity | exact Hok |].
+  rewrite (proj2 C17_projectq_tables_ok). discriminate.
 Qed.
 Print Assumptions C17_projectq_roundtrip.
+
+(* non-vacuity: measurement, PHASE and idle qubits all present *)
+Definition ex_full : fcirc Z :=
+  FCirc [G "H" [2%Z] None PNone false; G "PHASE" [0%Z] None (PNum 3%Z) false; G "CNOT" [1%Z] (Some [2%Z]) PNone false;
+         G "RZ" [1%Z] None (PNum (-5)%Z) false; G "MEASURE" [2%Z] None PNone false] 6%Z.
+Example C17_projectq_full_example :
+  (do l <- pq_write Z pq_tbl ex_full; pq_read Z gtables pq_tbl l) = Ok ex_full.
+Proof. vm_compute. reflexivity. Qed.
